@@ -32,9 +32,9 @@ def gen(rng, tier):
         cases.append({"id": "%s%d" % (kind, len(cases)), "line": line, "kind": kind})
 
     if tier == "quick":
-        lens = sorted(set(list(range(0, 1101, 9)) + [1, 2, 1023, 1024, 1025, 2047, 2048, 2049, 3071, 3072, 3073, 4095, 4096, 4097]))
+        lens = sorted(set(list(range(0, 1101, 9)) + [1, 2, 1023, 1024, 1025, 2047, 2048, 2049, 3071, 3072, 3073, 4095, 4096, 4097, 65537]))      # 65537: more than 64 full frames in one message
     else:
-        lens = list(range(0, 4098)) + [8192, 10000, 65536, 100000]
+        lens = list(range(0, 4098)) + [8192, 10000, 65535, 65536, 65537, 100000]
     for L in lens:
         role = rng.choice(["srv", "srv", "cli"])
         add("len", "enc %s %s full %s" % (rb32(), role, rb(rng, L)))
